@@ -57,8 +57,16 @@ def layout(case):
     from prettyprinter import layout as L
     doc, anns = docterm.build(case['t'])
     fn = L.layout_smart if case['strategy'] == 'smart' else L.layout_fast
-    stream = list(fn(doc, width=case['w'], ribbon_frac=case['frac']))
+    from .. import steps
+    # a layout of these small documents needs a few thousand package lines; a runaway one is re-decided by the meter
+    stream, exceeded = steps.guarded(lambda: list(fn(doc, width=case['w'], ribbon_frac=case['frac'])), cap=10 ** 6, cpu_seconds=5.0)
+    if exceeded:
+        raise NoTermination('layout did not finish within 10^6 package lines')
     return stream, anns
+
+
+class NoTermination(Exception):
+    pass
 
 
 def oracle(case):
